@@ -70,6 +70,14 @@ Begin(k, inp, lim, f, lm, r, bin) ==
   /\ ref' = IF r THEN <<k, <<>>, NoOutcome>> ELSE ref
   /\ skip' = (~r /\ (ref[1] # k \/ ref[3] = NoOutcome))
 
+\* LineReader::new on a reader the caller has already advanced: the first line starts at the reader's position
+LrNew(p) ==
+  /\ callOpen = "" /\ items = <<>> /\ outcome = NoOutcome
+  /\ p = pos /\ lns = <<1, 0>>
+  /\ lns' = <<1, p>>
+  /\ UNCHANGED <<input, limit, faulty, linesMode, isRef, key, binary, delivered, sdone, srcFailed, reported, pos,
+                 items, outcome, callOpen, lastGu, ref, skip>>
+
 \* bytes a BufReader had buffered before the parser was built on it
 Prebuf(n) ==
   /\ delivered' = delivered + n /\ delivered' <= limit
